@@ -423,6 +423,31 @@ func Structured(thorough bool) []Lazy {
 	for i, s := range single {
 		add("jsonpatch", fmt.Sprintf("jsonpatch/1/%d", i), []byte("["+s+"]"))
 	}
+	// the same operations inside fully valid requests: a create request, and a recover request signed by the recovery key of the
+	// existing states, whose only patch is the RFC 6902 list (hashes and signature are right, so the operation is applied);
+	// quick: every third single operation
+	{
+		recK, updK := keys.New("P-256", 501), keys.New("P-256", 502) // the keys of the worker's existing states
+		nextR, nextU := keys.New("Ed25519", 530), keys.New("Ed25519", 531)
+		wrap := func(listJSON string) []any {
+			return []any{M{"action": "ietf-json-patch", "patches": ops.ParseJSON(listJSON)}}
+		}
+		lists := []string{`[{"op":"add","path":"/note","value":"x"},{"op":"remove","path":"/note"}]`, `[{"op":"add","path":"/note","value":"x"},{"op":"move","from":"/note","path":"/n2"},{"op":"remove","path":"/n2"}]`}
+		for i, s := range single {
+			if thorough || i%3 == 0 {
+				lists = append(lists, "["+s+"]")
+			}
+		}
+		for i, l := range lists {
+			i, l := i, l
+			addLazy("op", fmt.Sprintf("create-with-jsonpatch/%d", i), func() []byte { return ops.Bytes(ops.ValidCreate(recK, updK, wrap(l), 18, nil)) })
+			if i%5 < 2 {
+				addLazy("op", fmt.Sprintf("recover-with-jsonpatch/%d", i), func() []byte {
+					return ops.Bytes(ops.ValidRecover("EiAbc", recK, nextR, nextU, wrap(l), 18, nil, ops.Window{}))
+				})
+			}
+		}
+	}
 	// pairs: a structural first operation followed by every "short" single operation
 	firsts := []string{`{"op":"add","path":"/m","value":null}`, `{"op":"add","path":"/a","value":[]}`, `{"op":"copy","from":"/m","path":"/c"}`, `{"op":"move","from":"/m","path":"/a/0"}`,
 		`{"op":"remove","path":"/m"}`, `{"op":"replace","path":"/a","value":{"0":1}}`, `{"op":"copy","from":"","path":"/r"}`, `{"op":"add","path":"","value":[1]}`, `{"op":"add","path":"","value":null}`}
